@@ -1110,10 +1110,20 @@ class Engine:
         profiling stats, including stats from parallel sub-processes.
         These stats are stored in ``self.stats``.
         """
-        apply_func_to_leaves(
-            self.processes, self._end_process_if_parallel)
-        apply_func_to_leaves(
-            self.steps, self._end_process_if_parallel)
+        # Every parallel process is told to stop, even if ending one of
+        # them fails; the first failure is raised afterwards.
+        errors = []
+
+        def end_process(process: Process) -> None:
+            try:
+                self._end_process_if_parallel(process)
+            except Exception as error:  # pylint: disable=broad-except
+                errors.append(error)
+
+        apply_func_to_leaves(self.processes, end_process)
+        apply_func_to_leaves(self.steps, end_process)
+        if errors:
+            raise errors[0]
         if self.profiler:
             self.profiler.disable()
             total_stats = pstats.Stats(self.profiler)
